@@ -35,7 +35,8 @@ func TestMain(m *testing.M) {
 			"plus, for every image, every prefix length of the manifest and a sample of prefix lengths of the state file (a partially written file). Oracle: every image restores, start-up succeeds, and the restored digest is exactly A or exactly B (never empty, partial or mixed) with LASTSAVE equal to the time of the snapshot that was restored. "+
 			"Also: a SAVE that finds nothing new leaves every file under snapshots/ byte-for-byte unchanged and LASTSAVE untouched. A case is one (A, B) pair with all its crash images; non-trivial = S0 exists, A ≠ B and the image lies after the first file operation; distinct = FNV-64 of the generated writes.",
 		"a process crash is modelled by copying the data directory at the failpoint, a partial write by truncating the file being written in that image; power loss below file-length granularity and directory-entry reordering are not modelled",
-		"no concurrent writers during the snapshot attempt")
+		"no concurrent writers during the snapshot attempt",
+		"after every crash image the recovered server writes new data, takes a snapshot and is restarted again: that snapshot must be served")
 	common.Main(m, rec)
 }
 
